@@ -746,6 +746,20 @@ def r07_5(ctx):
     ctx.require(ps[0].terminal == "return" and isinstance(got, (bytes, bytearray)) and bytes(got) == bytes([0x11, 0x33, 0x00, 0x44]), "serialize:typed-value-of-other-width",
                 f"serialize_dict with an 8-bit typed value for the 16-bit field b = {bytes(got).hex() if isinstance(got, (bytes, bytearray)) else got!r}, the schema's "
                 "type gives 11330044 (e.g. the bitmap8 default CONFIG_APPLICATION_ZDO_FLAGS written through setConfigurationValue(value: uint16))", func=ser)
+    # ... also when the value's class is a *subclass* of the field's type with another wire form (bellows' LVBytes32, a four-byte
+    # length prefix, handed to a field declared LVBytes): "already an instance" is not "already in the field's wire form"
+    from ..px import ZBytes
+
+    lv = TypeRef("zigpy.types.LVBytes")
+    ps = px.explore(ser, lambda: (None, {"args": (), "kwargs": {"a": 0x11, "d": ZBytes(b"\xaa\xbb", 4, ("LVBytes32", "LVBytes"))}, "schema": {"a": u8, "d": lv}}))
+    if len(ps) != 1:
+        raise AnalysisError("serialize_dict: several paths on typed concrete input")
+    got = ps[0].value
+    if ps[0].terminal == "return" and not isinstance(got, (bytes, bytearray)):
+        raise AnalysisError(f"serialize_dict result not evaluable for a length-prefixed value: {got!r:.80}")
+    ctx.require(ps[0].terminal == "return" and bytes(got) == bytes([0x11, 0x02, 0xAA, 0xBB]), "serialize:typed-value-of-subclass",
+                f"serialize_dict with an LVBytes32 value for a field declared LVBytes = {bytes(got).hex() if isinstance(got, (bytes, bytearray)) else got!r}; the field's "
+                "type gives 1102aabb (one-byte length prefix)", func=ser)
     for tail in (b"", b"\x99\x98"):
         ps = px.explore(des, lambda: (None, {"data": want + tail, "schema": dict(schema)}))
         r = ps[0].value
